@@ -127,7 +127,7 @@ static const vec3 kTet[4] = {{1, 1, 1}, {1, -1, -1}, {-1, 1, -1}, {-1, -1, 1}};
 
 static Cloud makeThickCloud(vh::Rng& r, size_t n) {
   Cloud c;
-  int fam = r.range(0, 9);
+  int fam = r.range(0, 10);
   std::vector<vec3>& p = c.p;
   const double s3 = 1.0 / std::sqrt(3.0);
   bool lattice = false;
@@ -233,6 +233,23 @@ static Cloud makeThickCloud(vh::Rng& r, size_t n) {
       p.push_back({1, 0, 0});
       p.push_back({0, 1, 0});
       p.push_back({0, 0, 1});
+      while (p.size() < n) p.push_back(all[r.below(all.size())]);
+      break;
+    }
+    case 9: {  // collinear triples: points along the rulings of a cone / cylinder / hyperboloid, and on segments between them
+      c.fam = "rulings";
+      for (auto& t : kTet) p.push_back(t * 0.6);
+      int lines = r.range(3, 14), per = r.range(3, 6), shape = r.range(0, 2);
+      double top = shape == 0 ? 1.0 : r.uni(0.1, 0.6), tw = shape == 2 ? r.uni(20, 120) : 0.0;
+      std::vector<vec3> all;
+      for (int i = 0; i < lines; i++) {
+        double a0 = 360.0 * i / lines;
+        vec3 lo(cosd(a0), sind(a0), -1), hi(top * cosd(a0 + tw), top * sind(a0 + tw), 1);
+        for (int k = 0; k < per; k++) {
+          double t = (double)k / (per - 1);
+          all.push_back(lo * (1 - t) + hi * t);
+        }
+      }
       while (p.size() < n) p.push_back(all[r.below(all.size())]);
       break;
     }
@@ -401,7 +418,9 @@ static bool checkHull(HullCtx& h, const Manifold& hull) {
   vh::Ctx& c = h.c;
   const Cloud& cl = h.cl;
   const std::vector<vec3>& in = cl.p;
-  const std::string fam = (cl.regime == 2 ? "degen:" : cl.regime == 1 ? "thin:" : "thick:") + h.via;
+  // key tail: regime, input kind and generator family (coordinate free)
+  std::string base = cl.fam.substr(0, cl.fam.find("+dups"));
+  const std::string fam = (cl.regime == 2 ? "degen:" : cl.regime == 1 ? "thin:" : "thick:") + h.via + ":" + base;
   c.count("hulls_observed");
   Manifold::Error st = hull.Status();
   bool empty = hull.IsEmpty();
@@ -477,7 +496,10 @@ static bool checkHull(HullCtx& h, const Manifold& hull) {
   long long degenerate = 0;
   std::vector<Face> F = makeFaces(s, degenerate);
   c.count("faces_without_plane_skipped", degenerate);
-  auto thr = [&](const Face& f, V3 p) { return epsHull * (1 + 1e-6L) + 32 * kU * scale * (1 + vo::norm(p - f.v0) / f.alt); };
+  // thr(f,p,1): one eps_hull above the plane (counted as advisory slack up to kSlack eps_hull);
+  // thr(f,p,kSlack): the decision threshold (see the assumptions in lib/checks_c16.py)
+  const LD kSlack = 10;
+  auto thr = [&](const Face& f, V3 p, LD k = 1) { return k * epsHull * (1 + 1e-6L) + 32 * kU * scale * (1 + vo::norm(p - f.v0) / f.alt); };
   // (4) every edge convex: the opposite vertex of the neighbour is on or below this face's plane
   {
     struct E { uint64_t key; uint32_t tri, opp; };
@@ -496,11 +518,11 @@ static bool checkHull(HullCtx& h, const Manifold& hull) {
       V3 w = s.v[it->opp];
       LD d = vo::dot(f.n, w - f.v0);
       c.count("edges_convexity_checked");
-      if (d > thr(f, w)) {
-        const char* cls = d <= 2 * epsHull ? "le2eps:" : d <= 10 * epsHull ? "le10eps:" : "gt10eps:";
-        c.violation(std::string("hull:concave-edge:") + cls + fam,
-                    hullDetail(h, "neighbouring face's opposite vertex lies above this face's plane by more than eps_hull",
-                               vh::J().d("above", (double)d).d("eps_hull", (double)epsHull).d("threshold", (double)thr(f, w)).u("tri", e.tri)
+      if (d > thr(f, w)) c.count(d <= 2 * epsHull ? "advisory_edges_concave_by_1_to_2_eps_hull" : "advisory_edges_concave_by_2_to_10_eps_hull_or_more");
+      if (d > thr(f, w, kSlack)) {
+        c.violation("hull:concave-edge:" + fam,
+                    hullDetail(h, "neighbouring face's opposite vertex lies above this face's plane by more than 10 eps_hull",
+                               vh::J().d("above", (double)d).d("eps_hull", (double)epsHull).d("threshold", (double)thr(f, w, kSlack)).u("tri", e.tri)
                                    .raw("face", "[" + p3(s.v[s.t[e.tri][0]]) + "," + p3(s.v[s.t[e.tri][1]]) + "," + p3(s.v[s.t[e.tri][2]]) + "]")
                                    .raw("vertex", p3(w)).str(), &m));
         return false;
@@ -554,10 +576,14 @@ static bool checkHull(HullCtx& h, const Manifold& hull) {
         if (getenv("C16_DEBUG")) fprintf(stderr, "UNCONF idx=%ld fam=%s n=%zu F=%zu d/eps=%.3g w=%d int=%d ds/eps=%.3g alt/scale=%.3g thr/eps=%.3g\n", c.idx, cl.fam.c_str(), in.size(), F.size(), (double)(d / epsHull), k.w, (int)k.integral, (double)(ds / epsHull), (double)(f.alt / scale), (double)(th / epsHull));
         return false;
       }
-      const char* cls = d <= 2 * epsHull ? "le2eps:" : d <= 10 * epsHull ? "le10eps:" : "gt10eps:";
-      c.violation(std::string("hull:input-point-outside:") + cls + fam,
-                  hullDetail(h, "input point lies above a face plane (and outside the hull) by more than eps_hull",
-                             vh::J().d("abovePlane", (double)d).d("distToHull", (double)ds).d("eps_hull", (double)epsHull).d("threshold", (double)thr(f, p))
+      if (d <= thr(f, p, kSlack) || ds <= thr(f, p, kSlack)) {
+        c.count(d <= 2 * epsHull ? "advisory_points_outside_by_1_to_2_eps_hull" : "advisory_points_outside_by_2_to_10_eps_hull");
+        c.maxi("advisory_max_point_outside_ppm_of_eps_hull", (long long)(1e6L * d / epsHull));
+        return false;
+      }
+      c.violation("hull:input-point-outside:" + fam,
+                  hullDetail(h, "input point lies above a face plane (and outside the hull) by more than 10 eps_hull",
+                             vh::J().d("abovePlane", (double)d).d("distToHull", (double)ds).d("eps_hull", (double)epsHull).d("threshold", (double)thr(f, p, kSlack))
                                  .u("point", pi).raw("pos", p3(in[pi])).u("tri", fi)
                                  .raw("face", "[" + p3(s.v[s.t[fi][0]]) + "," + p3(s.v[s.t[fi][1]]) + "," + p3(s.v[s.t[fi][2]]) + "]").str(), &m));
       return true;
